@@ -52,6 +52,12 @@ func mayFollow(f *ssa.Function, isA, isB func(ssa.Instruction) bool) []ssa.Instr
 
 // mustFollow reports A-instructions from which some path reaches a return without executing B.
 func mustFollow(f *ssa.Function, isA, isB func(ssa.Instruction) bool) []ssa.Instruction {
+	return mustFollowE(f, isA, isB, nil)
+}
+
+// mustFollowE: as mustFollow, but an edge for which okEdge holds counts as satisfied (e.g. the branch on
+// which the object that B would act on is nil).
+func mustFollowE(f *ssa.Function, isA, isB func(ssa.Instruction) bool, okEdge func(from, to *ssa.BasicBlock) bool) []ssa.Instruction {
 	// backward must: "B on every path from here to exit"
 	nb := len(f.Blocks)
 	outOK := make([]bool, nb) // at block end: all paths to exit pass B
@@ -71,7 +77,7 @@ func mustFollow(f *ssa.Function, isA, isB func(ssa.Instruction) bool) []ssa.Inst
 				}
 			} else {
 				for _, s := range b.Succs {
-					st = st && inOK[s.Index]
+					st = st && (inOK[s.Index] || (okEdge != nil && okEdge(b, s)))
 				}
 			}
 			if st != outOK[i] {
@@ -377,6 +383,92 @@ var ruleScopeS3 = &Rule{
 			c.Stats["node_kinds_"+w[0]] = len(kinds)
 			obs = append(obs, floor("SCOPE/S3-walker-exhaustive", w[0]+" kinds produced by the parser", len(kinds), 12))
 		}
+		return obs
+	},
+}
+
+// ---------------------------------------------------------------------------------------------
+// S4: every scope that is created is registered in its parent's SubScopes
+
+var ruleScopeS4 = &Rule{
+	Name:    "SCOPE/S4-tree-registration",
+	NeedSSA: true,
+	Text:    "every scope object created with a parent (call of common.CreateScopeInfo(parent, …)) is registered in that parent's SubScopes (parent.AppendSubScope(result)) on every path to the creating function's return, the only tolerated bypass being the branch on which the parent is nil; the outline, workspace-symbol collection and position→scope lookup reach nested declarations only through SubScopes, so an unregistered scope cuts its whole subtree off; ScopeInfo literals occur only in CreateScopeInfo",
+	Run: func(c *Ctx) []Ob {
+		var obs []Ob
+		commonPkg := modPath + "/langserver/check/common"
+		create := c.SSAFunc(commonPkg, "", "CreateScopeInfo")
+		app := c.SSAFunc(commonPkg, "ScopeInfo", "AppendSubScope")
+		if create == nil || app == nil {
+			return []Ob{{Key: "SCOPE/S4:slots", Verdict: UNDECIDED, Note: "slot unresolved: common.CreateScopeInfo / ScopeInfo.AppendSubScope"}}
+		}
+		// (a) literals only in CreateScopeInfo
+		n := 0
+		for _, f := range c.ModFns() {
+			cnt := 0
+			for _, b := range f.Blocks {
+				for _, ins := range b.Instrs {
+					if al, ok := ins.(*ssa.Alloc); ok && f != create {
+						if p, nme := namedPkgName(al.Type().Underlying().(*types.Pointer).Elem()); p == commonPkg && nme == "ScopeInfo" {
+							cnt++
+							obs = append(obs, Ob{Key: fmt.Sprintf("SCOPE/S4:literal:%s#%d", fnKey(f), cnt), Site: c.Pos(al.Pos()), Verdict: VIOLATION,
+								Note: "ScopeInfo allocated outside CreateScopeInfo: the registration rule cannot see it"})
+						}
+					}
+					call, ok := ins.(*ssa.Call)
+					if !ok || call.Call.StaticCallee() != create {
+						continue
+					}
+					n++
+					cnt++
+					key := fmt.Sprintf("SCOPE/S4:%s#%d", fnKey(f), cnt)
+					parent := call.Call.Args[0]
+					if cst, ok := parent.(*ssa.Const); ok && cst.IsNil() {
+						obs = append(obs, Ob{Key: key, Site: c.Pos(call.Pos()), Verdict: OK, Note: "root scope (nil parent)"})
+						continue
+					}
+					// blocks entered only when parent == nil
+					nilEdge := map[[2]*ssa.BasicBlock]bool{}
+					for _, bb := range f.Blocks {
+						iff, ok := bb.Instrs[len(bb.Instrs)-1].(*ssa.If)
+						if !ok {
+							continue
+						}
+						bo, ok := iff.Cond.(*ssa.BinOp)
+						if !ok {
+							continue
+						}
+						isNilC := func(v ssa.Value) bool { k, ok := v.(*ssa.Const); return ok && k.IsNil() }
+						if !((bo.X == parent && isNilC(bo.Y)) || (bo.Y == parent && isNilC(bo.X))) {
+							continue
+						}
+						var nb *ssa.BasicBlock
+						if bo.Op.String() == "!=" {
+							nb = bb.Succs[1]
+						} else if bo.Op.String() == "==" {
+							nb = bb.Succs[0]
+						}
+						if nb != nil {
+							nilEdge[[2]*ssa.BasicBlock{bb, nb}] = true
+						}
+					}
+					isA := func(i ssa.Instruction) bool { return i == ssa.Instruction(call) }
+					isB := func(i ssa.Instruction) bool {
+						c2, ok := i.(*ssa.Call)
+						return ok && c2.Call.StaticCallee() == app && len(c2.Call.Args) == 2 && c2.Call.Args[0] == parent && c2.Call.Args[1] == ssa.Value(call)
+					}
+					okEdge := func(from, to *ssa.BasicBlock) bool { return nilEdge[[2]*ssa.BasicBlock{from, to}] }
+					if bad := mustFollowE(f, isA, isB, okEdge); len(bad) > 0 {
+						obs = append(obs, Ob{Key: key, Site: c.Pos(call.Pos()), Verdict: VIOLATION,
+							Note: "scope created with a parent but some path to the return of " + f.Name() + " does not register it with parent.AppendSubScope: its subtree is invisible to outline / symbol / position lookups"})
+					} else {
+						obs = append(obs, Ob{Key: key, Site: c.Pos(call.Pos()), Verdict: OK})
+					}
+				}
+			}
+		}
+		c.Stats["scope_creation_sites"] = n
+		obs = append(obs, floor("SCOPE/S4-tree-registration", "CreateScopeInfo call sites", n, 7))
 		return obs
 	},
 }
